@@ -217,3 +217,136 @@ impl rand_core::RngCore for CounterRng {
     }
 }
 impl rand_core::CryptoRng for CounterRng {}
+
+// ------------------------------------------------------------------------------------------
+// Level 2: toy transcript (Merlin API level).
+//
+// With only the Keccak permutation stubbed, one `Verifier::verify` path costs CBMC's symbolic
+// execution more than 25 minutes (NOTES.md), so harnesses that run a whole prover or verifier
+// replace Merlin's *operations* as well.  The toy transcript keeps a 64-bit FNV-1a style
+// accumulator in the first 8 bytes of the (otherwise unused) STROBE state; every label,
+// length and message byte is folded into it, challenges are squeezed from it.  What is kept:
+// challenges are a deterministic function of everything appended so far, in order, and prover
+// and verifier derive equal challenges from equal transcripts.  What is lost: STROBE framing
+// and every cryptographic property.  Harnesses using these stubs claim shape / panic /
+// threshold facts only.
+// ------------------------------------------------------------------------------------------
+
+use merlin::{Transcript, TranscriptRng, TranscriptRngBuilder};
+
+/// Layout twin of `merlin::strobe::Strobe128` (and of the three single-field wrappers).
+#[repr(C, align(8))]
+pub struct StrobeTwin {
+    pub state: [u8; 200],
+    pub pos: u8,
+    pub pos_begin: u8,
+    pub cur_flags: u8,
+}
+const _: () = assert!(core::mem::size_of::<StrobeTwin>() == core::mem::size_of::<Transcript>());
+const _: () = assert!(core::mem::size_of::<StrobeTwin>() == core::mem::size_of::<TranscriptRngBuilder>());
+const _: () = assert!(core::mem::size_of::<StrobeTwin>() == core::mem::size_of::<TranscriptRng>());
+const _: () = assert!(core::mem::align_of::<StrobeTwin>() >= core::mem::align_of::<Transcript>());
+
+const FNV_PRIME: u64 = 0x0000_0100_0000_01B3;
+const FNV_BASIS: u64 = 0xCBF2_9CE4_8422_2325;
+
+#[inline(always)]
+fn acc_get(p: *mut u8) -> u64 {
+    // SAFETY: `p` points at a live 208-byte object (twin layout).
+    unsafe { u64::from_le_bytes([*p, *p.add(1), *p.add(2), *p.add(3), *p.add(4), *p.add(5), *p.add(6), *p.add(7)]) }
+}
+#[inline(always)]
+fn acc_set(p: *mut u8, a: u64) {
+    let b = a.to_le_bytes();
+    unsafe {
+        *p = b[0];
+        *p.add(1) = b[1];
+        *p.add(2) = b[2];
+        *p.add(3) = b[3];
+        *p.add(4) = b[4];
+        *p.add(5) = b[5];
+        *p.add(6) = b[6];
+        *p.add(7) = b[7];
+    }
+}
+#[inline(always)]
+fn fold1(a: u64, b: u8) -> u64 {
+    (a ^ b as u64).wrapping_mul(FNV_PRIME)
+}
+#[inline(always)]
+fn fold(mut a: u64, tag: u8, data: &[u8]) -> u64 {
+    a = fold1(a, tag);
+    a = fold1(a, data.len() as u8);
+    let mut i = 0;
+    while i < data.len() {
+        a = fold1(a, data[i]);
+        i += 1;
+    }
+    a
+}
+#[inline(always)]
+fn squeeze(mut a: u64, dest: &mut [u8]) -> u64 {
+    let mut i = 0;
+    while i < dest.len() {
+        a = (a ^ (a >> 29)).wrapping_mul(0xBF58_476D_1CE4_E5B9).wrapping_add(0x9E37_79B9_7F4A_7C15);
+        dest[i] = (a >> 32) as u8;
+        i += 1;
+    }
+    a
+}
+
+/// `merlin::Transcript::new`
+pub fn toy_transcript_new(label: &'static [u8]) -> Transcript {
+    let mut tw = StrobeTwin { state: [0u8; 200], pos: 0, pos_begin: 0, cur_flags: 0 };
+    let a = fold(FNV_BASIS, 0x01, label);
+    acc_set(tw.state.as_mut_ptr(), a);
+    // SAFETY: same size; every bit pattern is a valid Strobe128.
+    unsafe { core::mem::transmute::<StrobeTwin, Transcript>(tw) }
+}
+/// `merlin::Transcript::append_message`
+pub fn toy_append_message(t: &mut Transcript, label: &'static [u8], message: &[u8]) {
+    let p = t as *mut Transcript as *mut u8;
+    let a = fold(fold(acc_get(p), 0x02, label), 0x03, message);
+    acc_set(p, a);
+}
+/// `merlin::Transcript::challenge_bytes`
+pub fn toy_challenge_bytes(t: &mut Transcript, label: &'static [u8], dest: &mut [u8]) {
+    let p = t as *mut Transcript as *mut u8;
+    let a = fold1(fold(acc_get(p), 0x04, label), dest.len() as u8);
+    let a = squeeze(a, dest);
+    acc_set(p, a);
+}
+/// `merlin::TranscriptRngBuilder::rekey_with_witness_bytes`
+pub fn toy_rekey(mut b: TranscriptRngBuilder, label: &'static [u8], witness: &[u8]) -> TranscriptRngBuilder {
+    let p = &mut b as *mut TranscriptRngBuilder as *mut u8;
+    let a = fold(fold(acc_get(p), 0x05, label), 0x06, witness);
+    acc_set(p, a);
+    b
+}
+/// `merlin::TranscriptRngBuilder::finalize`
+pub fn toy_finalize<R>(mut b: TranscriptRngBuilder, rng: &mut R) -> TranscriptRng
+where
+    R: rand_core::RngCore + rand_core::CryptoRng,
+{
+    let mut bytes = [0u8; 32];
+    rng.fill_bytes(&mut bytes);
+    let p = &mut b as *mut TranscriptRngBuilder as *mut u8;
+    let a = fold(acc_get(p), 0x07, &bytes);
+    acc_set(p, a);
+    // SAFETY: both are single-field wrappers of Strobe128.
+    unsafe { core::mem::transmute::<TranscriptRngBuilder, TranscriptRng>(b) }
+}
+/// `<merlin::TranscriptRng as RngCore>::fill_bytes`
+pub fn toy_rng_fill_bytes(r: &mut TranscriptRng, dest: &mut [u8]) {
+    let p = r as *mut TranscriptRng as *mut u8;
+    let a = fold1(fold1(acc_get(p), 0x08), dest.len() as u8);
+    let a = squeeze(a, dest);
+    acc_set(p, a);
+}
+/// `<core::slice::IterMut<'_, u8> as zeroize::Zeroize>::zeroize` (reached from the `Drop` of
+/// every STROBE state: a 200-iteration volatile-write loop) -> one `memset`.
+pub fn iter_zeroize_stub(it: &mut core::slice::IterMut<'_, u8>) {
+    let s = core::mem::take(it).into_slice();
+    // SAFETY: `s` is a valid exclusive slice.
+    unsafe { core::ptr::write_bytes(s.as_mut_ptr(), 0, s.len()) }
+}
